@@ -78,6 +78,8 @@ class Program:
                     with open(path, encoding='utf-8') as fh:
                         src = fh.read()
                 self.modules[name] = ModuleInfo(name, path, src)
+        from .extract import install
+        install(self)       # mechanically extracted statement blocks (vf/extract.py), rebuilt from the current AST
 
     def module(self, name):
         return self.modules[name]
